@@ -25,6 +25,8 @@ def variants(transport, side, fault, tier):
         return PANIC_VALUES_QUICK if q else PANIC_VALUES_QUICK + PANIC_VALUES_MORE
     if fault == "hostile-panic-value":
         return HOSTILE_QUICK if q else HOSTILE_QUICK + HOSTILE_MORE
+    if fault == "nested-hostile-panic-value":
+        return ["nested-hostile", "self-hostile"]
     if fault in ("invoke-plugin-panic", "missing-method-panic"):
         return ["string"] if q else PANIC_VALUES_QUICK + ["runtime-index", "int"]
     if fault == "io-plugin-panic":
@@ -141,7 +143,7 @@ def agrees(case, model, seen, o=None, m=None):
     return False
 
 
-FAULT_MUST_ERR = {"service-panic", "hostile-panic-value", "invoke-plugin-panic", "io-plugin-panic", "missing-method-panic", "decode-error",
+FAULT_MUST_ERR = {"service-panic", "hostile-panic-value", "nested-hostile-panic-value", "invoke-plugin-panic", "io-plugin-panic", "missing-method-panic", "decode-error",
                   "decode-panic", "oversize-request", "oversize-response", "bad-payload", "provider-panic"}
 
 
@@ -187,7 +189,7 @@ def property_oracle(case, o):
 
 def key_of(case, symptom):
     # the reverse provider's handling of a provided function is the same code on every transport
-    tr = "reverse-provider" if (case["side"] == "client" and case["fault"] in ("provider-panic", "hostile-panic-value")) else case["transport"]
+    tr = "reverse-provider" if (case["side"] == "client" and case["fault"] in ("provider-panic", "hostile-panic-value", "nested-hostile-panic-value")) else case["transport"]
     return "%s:%s:%s:%s" % (tr, case["side"], case["fault"], symptom)
 
 
@@ -221,9 +223,9 @@ def run(ctx):
         "fasthttp's worker, the application's WorkerPool and the goroutine calling the client API have no recover",
         "panic(nil) is observed with GODEBUG=panicnil=0 (Go >= 1.21 semantics; with the legacy setting every "
         "`if e := recover(); e != nil` handler, including net/http's, cannot see it)",
-        "fmt.Sprintf shields ONE level of panics raised by a value's Error()/String() method (placeholder text); a value whose "
-        "method panics with a value whose method panics again defeats fmt (and net/http's own recover): such values are "
-        "probed and recorded in the thorough tier but carry no verdict",
+        "fmt.Sprintf shields ONE level of panics raised by a value's Error()/String() method (placeholder text) and re-panics on a "
+        "nested one; against values whose method panics with a value whose method panics again (or with itself) the model relies "
+        "on the deferred recover inside PanicError.Error/String that the table shows (format_total)",
         "runtime fatal errors (out of memory, concurrent map writes, stack overflow) are not panics and are out of scope",
         "what the recovering function does with the panic (error for the call / close the connection / end the serve loop) "
         "and the error paths of malformed frames are hand-written in the model and validated by the correspondence run only",
@@ -249,7 +251,8 @@ def run(ctx):
     if unresolved:
         ctx.note("gotables_unresolved", unresolved[:20])
     ctx.note("model_table_accounted", {"table_accounted": acc[0] == "1", "goroutines_present": acc[1] == "1", "unresolved": int(acc[2]),
-                                       "format_shielded": acc[3] == "1", "udp_max_body": int(acc[4])})
+                                       "format_shielded": acc[3] == "1", "udp_max_body": int(acc[4]),
+                                       "format_total": len(acc) > 5 and acc[5] == "1"})
     ctx.note("cells", len(names))
     run_corpus(ctx)
     cases = gen_cases(ctx, names)
@@ -349,7 +352,6 @@ def run(ctx):
                     "gotables_unresolved": unresolved[:10]})
     if ctx.tier == "thorough":
         legacy_probe(ctx, names)
-        nested_hostile_probe(ctx)
 
 
 def run_corpus(ctx):
@@ -395,22 +397,6 @@ def legacy_probe(ctx, names):
     byid, _ = run_cases(cases, nproc=4)
     ctx.note("legacy_panicnil_probe", {c["cell"]: (observed_class(byid[c["id"]]), (byid[c["id"]].get("child") or {}).get("fault"))
                                        for c in cases if c["id"] in byid})
-
-
-def nested_hostile_probe(ctx):
-    """Informational: panic values whose Error() panics with a value whose Error() panics again.  fmt.Sprintf re-panics
-    on the nested panic, so PanicError.Error() panics where no recover of the library reaches (Service.Handle's tail, the
-    handlers' send loops); Go's own net/http dies of the same value inside its recover handler."""
-    cases = []
-    i = 0
-    for t in ["mock", "fasthttp", "http", "tcp", "udp"]:
-        for v in ["nested-hostile", "self-hostile"]:
-            cases.append({"id": 910000 + i, "cell": "%s:server:nopool:hostile-panic-value" % t, "transport": t, "side": "server",
-                          "pool": False, "fault": "hostile-panic-value", "variant": v})
-            i += 1
-    byid, _ = run_cases(cases, nproc=8)
-    ctx.note("nested_hostile_probe", {"%s/%s" % (c["transport"], c["variant"]): observed_class(byid[c["id"]])
-                                      for c in cases if c["id"] in byid})
 
 
 def replay(ctx, path):
